@@ -297,9 +297,17 @@ def explore(nclients, kinds, check, shard_idx=0, nshards=1):
                 stats["deliveries"] += len(got)
                 stats["nondeliveries"] += (len(model.clients) + len(model.devices)) - len(got)
                 fails = check(model, ev, got, exc, exp)
-                if sysm.canon() != st:
-                    fails = fails + [("send-changed-router-state", "kind=%s" % ev[1], "router state changed by a send: %r" % (ev,))]
-                    sysm, _ = build(path, nclients)
+                c_now = sysm.canon()
+                if c_now != st:
+                    if c_now[:3] != st[:3]:
+                        # registration / policy tables changed by a message that must not change them
+                        fails = fails + [("send-changed-router-state", "kind=%s" % ev[1], "registration or policy state changed by a send: %r" % (ev,))]
+                        sysm, _ = build(path, nclients)
+                    else:
+                        # only further attributes changed (a cache, a counter): legitimate hidden state. The same live
+                        # router keeps being used, as in real life, so whatever the hidden state does to later deliveries
+                        # is judged by the delivery oracle; it is counted, not reported.
+                        stats["sends_touching_hidden_state"] = stats.get("sends_touching_hidden_state", 0) + 1
                 if fails:
                     keep(fails, path + [ev])
         for ev in structural_events(model, nclients):
